@@ -4,3 +4,6 @@ open Verif.Props.C09
 #print axioms xml_output_wellformed
 #print axioms svg_path_output_parses
 #print axioms svg_path_lex_roundtrip
+#print axioms json_second_pass_fixed
+#print axioms json_numfix_keep
+#print axioms json_numfix_precision_counterexample
